@@ -244,7 +244,14 @@ class ClassParser(BaseParser):
             case_insensitive_names.update(parser.case_insensitive_names)
             # inherited fields may still hold unresolved forward references (the base was never parsed yet):
             # they have to be resolved at the first parse of this class as well
-            self.forward_refs.update(parser.forward_refs)
+            for ref_key, pending in parser.forward_refs.items():
+                # two bases may both hold a pending reference to the same name: keep them all
+                n = 0
+                key = ref_key
+                while key in self.forward_refs and self.forward_refs[key][0] is not pending[0]:
+                    n += 1
+                    key = f"{ref_key.split('#')[0]}#{n}"
+                self.forward_refs[key] = pending
 
         # cls_options = self.options  # add current cls options
         # if cls_options:
